@@ -149,7 +149,8 @@ def same_event(got, want, is_queue):
             if a is not None and set(a) != set(b):
                 return False
         elif f in ("file_bytes", "timestamp", "runnable", "eof"):
-            if a is not b and a != b:
+            # id(): CrossHair's interception of the `is` operator realises symbolic bools (= forks)
+            if id(a) != id(b) and a != b:
                 return False
         elif a != b:
             return False
